@@ -51,6 +51,13 @@ STMT_TWINS = [
     ("{ int32_t t1 = RsV; t1 <<= 2; RdV = t1; }", "{ int32_t t1 = RsV; t1 << = 2; RdV = t1; }"),
     ("{ int32_t t2 = RsV; RdV = t2++ + RtV; }", "{ int32_t t2 = RsV; RdV = t2 + ++RtV; }"),
     ("{ RdV = RsV & RtV; }", "{ RdV = RsV && RtV; }"),
+    # a rejected use next to the accepted one: surplus macro / routine arguments, a name that is never declared
+    ("{ RdV = extract32(RsV, 0, 8, 1); }", "{ RdV = extract32(RsV, 0, 8); }"),
+    ("{ RddV = sextract64(RssV, 0, 16, 2); }", "{ RddV = sextract64(RssV, 0, 16); }"),
+    ("{ RdV = deposit32(RsV, 0, 8, RtV, 1); }", "{ RdV = deposit32(RsV, 0, 8, RtV); }"),
+    ("{ RdV = clz32(RsV, RtV); }", "{ RdV = clz32(RsV); }"),
+    ("{ n = RsV; }", "{ RdV = n; }"),
+    ("{ cnt = RsV + 1; RdV = cnt; }", "{ RdV = cnt + 1; }"),
 ]
 
 
